@@ -159,7 +159,7 @@ def shrink(pl: cxx.Pipeline, p: gen_prog.Prog, r: dict[str, Any], rounds: int = 
 
 	cur, cur_r = p, r
 	for _ in range(rounds):
-		cands = candidates(cur)[:48]
+		cands = candidates(cur)[:32]
 		if not cands:
 			break
 		res = pl.check_many([gen_prog.to_dict(c) for c in cands], per_unit=1)
@@ -549,7 +549,7 @@ def stream_cpptable(ctx: Ctx, emit_cases_done: list[tuple[dict[str, Any], list[s
 	from concurrent.futures import ThreadPoolExecutor
 	from translate.gen_cpp_templates import cpp_tokens
 	todo = [d for d, _, _ in emit_cases_done if d.get('core')]
-	todo = todo[:ctx.scale(500, 100000)]
+	todo = todo[:ctx.scale(100000, 100000)]
 	work = ctx.tmpdir('tranp-verif-cpptable-')
 	chunks = [todo[i:i + 250] for i in range(0, len(todo), 250)]
 
@@ -598,6 +598,89 @@ def stream_cpptable(ctx: Ctx, emit_cases_done: list[tuple[dict[str, Any], list[s
 	return st
 
 
+def stream_sem(ctx: Ctx, emit_cases_done: list[tuple[dict[str, Any], list[str], list[str]]]) -> Stream:
+	"""validates the two trusted transcriptions of theorem `sem`: `denotePy` against CPython (the instrumented evaluation that
+	defines the agreement subset) and `denoteCpp ∘ Prec.parse cppOps` against g++ running the real emitted text under UBSan."""
+	import subprocess
+	from concurrent.futures import ThreadPoolExecutor
+	rng = ctx.sub_rng('sem')
+	int_names, bool_names = ['a', 'b', 'c'], ['p', 'q']
+	todo = []
+	for d, _, _ in emit_cases_done:
+		if 'enc' not in d:
+			continue
+		atoms = dict(re.findall(r'a ([0-9]+) ([0-9a-f]+)', d['enc']))
+		texts = {int(i): common.unhx(h) for i, h in atoms.items()}
+		if all(t in int_names + bool_names + ['true', 'false'] or re.fullmatch(r'[0-9]+', t) for t in texts.values()) and ' float ' not in d['enc'] and ' other ' not in d['enc']:
+			todo.append((d, texts))
+	rng.shuffle(todo)
+	todo = todo[:ctx.scale(250, 2500)]
+	work = ctx.tmpdir('tranp-verif-sem-')
+	cases_in = []
+	for d, texts in todo:
+		small = rng.random() < 0.6
+		vals: dict[str, Any] = {n: (rng.randint(0, 9) if small else rng.choice([0, 1, -1, 7, -8, 31, 33, 1000, -65536, 2 ** 30, -(2 ** 31), 2 ** 31 - 1, rng.randint(-50, 50)])) for n in int_names}
+		vals.update({n: rng.random() < 0.5 for n in bool_names})
+		env = []
+		for i, t in texts.items():
+			v = vals[t] if t in vals else (True if t == 'true' else False if t == 'false' else int(t))
+			env.append(f"{i}:{'b' + str(int(v)) if isinstance(v, bool) else 'i' + str(v)}")
+		cases_in.append((d, vals, ' '.join(env)))
+	# CPython side
+	py_real = []
+	for d, vals, _ in cases_in:
+		prog = {'source': f"def f(a: int, b: int, c: int, p: bool, q: bool) -> int:\n\treturn {d['expr']}\n",
+			'entries': [{'fn': 'f', 'params': ['int', 'int', 'int', 'bool', 'bool'], 'ret': 'int', 'args': [[vals[n] for n in int_names + bool_names]]}], 'classes': {}}
+		r = cxx.run_python(prog)[('f', 0)]
+		py_real.append('out' if r.startswith('out:') or r == 'raised' else ('ok b:1' if r == 'True' else 'ok b:0' if r == 'False' else f'ok i:{r}'))
+	# g++ side (core texts only): one function per case, one process per evaluation (UBSan aborts at the first undefined operation)
+	from translate.gen_cpp_templates import cpp_tokens
+	fused_ix = {k for k, (d, _, _) in enumerate(cases_in) if d.get('core') and {'--', '++'} & set(cpp_tokens(d['text']))}
+	core_ix = [k for k, (d, _, _) in enumerate(cases_in) if d.get('core') and k not in fused_ix]
+	# where the model says the C++ evaluation is undefined there is nothing to observe (g++ folds `c - 2 || false` to `c != 2`
+	# before UBSan sees the overflow): those evaluations are skipped, and counted
+	model_cpp = dict(zip(core_ix, common.lean_driver('emit', [f"evalcpp\t{cases_in[k][2]}\t{cases_in[k][0]['enc']}" for k in core_ix])))
+	ub_ix = {k for k in core_ix if model_cpp[k] == 'ub'}
+	core_ix = [k for k in core_ix if k not in ub_ix]
+	src = ['#include <cstdio>', '#include <cstdlib>']
+	for k in core_ix:
+		src.append(f"static int f{k}(int a, int b, int c, bool p, bool q) {{ return {cases_in[k][0]['text']}; }}")
+	src.append('int main(int argc, char** argv) { int k = atoi(argv[1]); switch (k) {')
+	for k in core_ix:
+		v = cases_in[k][1]
+		src.append(f"\tcase {k}: printf(\"%d\\n\", f{k}({v['a']}, {v['b']}, {v['c']}, {'true' if v['p'] else 'false'}, {'true' if v['q'] else 'false'})); break;")
+	src.append('} return 0; }')
+	path = os.path.join(work, 'sem.cpp')
+	with open(path, 'w', encoding='utf-8') as f:
+		f.write('\n'.join(src).replace('-2147483648', '(-2147483647 - 1)') + '\n')
+	p = subprocess.run(['g++', '-std=c++20', '-O0', '-w', '-fsanitize=undefined', '-fno-sanitize-recover=undefined', path, '-o', path[:-4]], capture_output=True, text=True, timeout=900)
+	rejected = p.returncode != 0
+
+	def run_one(k: int) -> str:
+		if rejected:
+			return 'g++ rejects the unit of emitted operator texts: ' + p.stderr[-300:].replace('\n', ' ').replace('\t', ' ')
+		r = subprocess.run([path[:-4], str(k)], capture_output=True, text=True, timeout=20)
+		return f'ok {r.stdout.strip()}' if r.returncode == 0 and r.stdout.strip() else 'ub'
+
+	with ThreadPoolExecutor(16) as ex:
+		cpp_real = dict(zip(core_ix, ex.map(run_one, core_ix)))
+	cpp_real.update({k: 'noparse' for k in fused_ix})
+	cpp_real.update({k: 'ub' for k in ub_ix})
+	cases = []
+	for k, (d, vals, env) in enumerate(cases_in):
+		ops, real = [f"evalpy\t{env}\t{d['enc']}"], [py_real[k]]
+		if k in cpp_real:
+			ops.append(f"evalcpp\t{env}\t{d['enc']}")
+			real.append(cpp_real[k])
+		cases.append(({'expr': d['expr'], 'text': d['text'], 'vals': vals, 'py': py_real[k], 'cpp': cpp_real.get(k)}, ops, real))
+	st = common.correspond('sem', cases, 'emit', classify=lambda d: f"py:{d['py'][:2]}/cpp:{(d['cpp'] or 'n/a')[:2]}")
+	st.histogram['cpp-undefined-skipped'] = len(ub_ix)
+	st.histogram['cpp-fused-sign'] = len(fused_ix)
+	st.note = ('int/bool operator expressions of stream emit evaluated on random environments: denotePy vs CPython (instrumented = the subset checks), '
+		'denoteCpp(Prec.parse cppOps (emit n)) vs g++ -std=c++20 -fsanitize=undefined running the real emitted text')
+	return st
+
+
 def stream_emit(ctx: Ctx) -> Stream:
 	rng = ctx.sub_rng('emit')
 	tr = cxx.Transpiler(ctx.tmpdir())
@@ -622,19 +705,55 @@ def stream_emit(ctx: Ctx) -> Stream:
 # ---------------------------------------------------------------------------------------------
 
 
-STATEMENTS: dict[str, str] = {}
+STATEMENTS = {
+	'ladder_eq': 'the operators/levels/kinds the model enumerates = the expression ladder translated from data/grammar.lark (decide)',
+	'ops_total': 'for every ladder operator, operand-type pair and dict flag a branch of the translated binary_operator.j2 / binary_in.j2 is selected and mentions both operands; unary/ternary/group likewise (decide over generated tables)',
+	'group_iff': 'for every grammar-producible operator node of the core: Prec.parse cppTable (emitted tokens) = Python\'s grouping  <=>  no comparison chain, no fused --/++, no parent/child slot in badPairs (computed from the two tables)',
+	'group_witnesses': 'a & b == c, not a == b, a | b < c, a < b < c, - -a are grammar-producible core nodes that C++ does not regroup like Python',
+	'group_counterexample': 'not group_statement: the full grouping sentence of the property is false on the pinned tree (witness a & b == c; replayed on the real code by corpus/C01/f1-bitand-over-compare.json)',
+	'sem': 'inside the agreement subset (32-bit ints, % on non-negative/positive operands, no /, shifts 0..31, bools under and/or/not, no comparison chain) the C++ value of the tree with Python\'s grouping equals the Python value, without UB',
+	'agree': 'group_iff + sem: no bad pair and in-subset evaluation => the emitted token text, as C++ parses it, evaluates to the Python value',
+}
 
 
 def run(ctx: Ctx) -> int:
-	proof = None
+	from translate import gen_cpp_templates
+	translate_ok, translate_msg = True, ''
+	try:
+		with ctx.timed('translate'):
+			ctx.generated_tables = gen_cpp_templates.generate()
+	except Exception as e:  # noqa: BLE001 - the translator fails loudly when a template/grammar/i18n file leaves the skeleton it understands
+		translate_ok, translate_msg = False, f'{type(e).__name__}: {e}'
+	proof = common.prove(ctx, PROP, leanchecker=ctx.thorough)
 	streams: list[Stream] = []
+	if proof.built:
+		with ctx.timed('correspondence'):
+			st = stream_emit(ctx)
+			streams = [st, stream_cpptable(ctx, st.raw_cases), stream_sem(ctx, st.raw_cases)]  # type: ignore[attr-defined]
+			del st.raw_cases  # type: ignore[attr-defined]
 	with ctx.timed('search'):
 		pl = cxx.Pipeline(ctx)
 		try:
 			searches = [search_programs(ctx, pl)]
 		finally:
 			pl.close()
-	return common.finish(ctx, proof, streams, searches, statements=STATEMENTS)
+	return common.finish(ctx, proof, streams, searches, statements=STATEMENTS, translate_ok=translate_ok, translate_msg=translate_msg,
+		partial={
+			'proved': 'operator core: emitted tokens re-parsed by the C++ table = Python grouping iff no bad pair (group_iff), exact counterexamples, '
+				'operator semantics agree inside the subset (sem), template/ladder totality (ops_total, ladder_eq)',
+			'correspondence_only': 'Model.Emit = real Py2Cpp on operator nodes (stream emit: exact text, tokens, wf, CPython grouping); cppTable = g++\'s grammar (stream cpptable)',
+			'search_only': 'statements, functions, classes, containers, comprehensions, strings, casts, exceptions, acceptance by g++ -std=c++20, never-rejected: generated programs vs CPython',
+			'false_on_pinned_tree': 'the grouping sentence (group_counterexample) — see proposed/C01-*.md',
+		},
+		assumptions=[
+			'an atom is any primary; its text is whatever its own handler rendered (leaf handlers are outside the model)',
+			'the domain name of each chain element is the one Reflections.type_of/to_domain_name gave (type inference is C03\'s subject)',
+			'ternary, in / not in, <> and float % are emitted by the model (stream emit) but excluded from group_iff (`core`); ternary operands are or_tests and `?:` binds loosest in C++',
+			'floats are not modelled in `sem`; the search restricts floats to values exactly representable in binary32',
+		],
+		trusted=['cppTable: ISO C++20 expression grammar transcribed (validated against g++ by stream cpptable)',
+			'denotePy / denoteCpp: transcriptions of the two language definitions for int/bool operators',
+			'g++ 12 -std=c++20 as the C++ oracle of the search; std::format shimmed in the driver prelude (g++ 12 has no <format>)'])
 
 
 def replay(ctx: Ctx, path: str) -> int:
